@@ -43,6 +43,16 @@ def unit(prop, name, cases=None, sizes=None, functions=(), modes=('unbounded', '
     return deco
 
 
+def int_variant(prop, name, arrays):
+    """Also run the unit (prop, name) with the named record arrays declared as integer-dtype arrays (driver: extra tasks, case tag
+    'record=int')."""
+    for u in UNITS:
+        if u['prop'] == prop and u['name'] == name:
+            u['opts'] = dict(u['opts'] or {}, int_variant=tuple(arrays))
+            return
+    raise KeyError((prop, name))
+
+
 def summary(qualname):
     def deco(fn):
         SUMMARIES[qualname] = fn
@@ -520,6 +530,8 @@ class Verifier:
             shape = (shape,)
         shape = tuple(N(s) for s in shape)
         nd = len(shape)
+        if name in getattr(self, 'int_names', ()) and dtype == 'float':
+            dtype = 'int'
         name = self._nm(name)
         if dtype == 'complex':
             fre = z3.Function(name + '_re', *([T.I] * nd + [T.R]))
